@@ -179,6 +179,10 @@ def main(argv=None):
         if only is None and m['counters'][name] == 0:
             inconclusive.append('required monitor %r never evaluated' % name)
 
+    extra_cov = {}
+    if hasattr(mod, 'summarize') and only is None:
+        extra_cov, more = mod.summarize(m, tier)
+        inconclusive.extend(more)
     distinct = len(m['distinct']) + m['distinct_extra']
     level = getattr(mod, 'LEVEL', 'exploration')
     evidence = {
@@ -209,6 +213,7 @@ def main(argv=None):
         'wall_s': round(time.time() - t0, 2),
         'violations': len(unlisted),
     }
+    evidence['coverage'].update(extra_cov)
     if only is None and not os.environ.get('RV_NO_EVIDENCE'):
         os.makedirs(os.path.join(core.VERIF, 'evidence'), exist_ok=True)
         with open(os.path.join(core.VERIF, 'evidence', prop + '.json'), 'w') as f:
